@@ -338,7 +338,8 @@ class ElementList(MutableSequence):
 
         # just copy the first element of the ElementProxy (e.g. message.pid = message2.pid)
         if isinstance(value, ElementProxy):
-            value = value[0].to_er7()
+            # (written with the encoding characters of this element, which are going to be used to read it)
+            value = value[0].to_er7(self.element.encoding_chars)
 
         name = name.upper()
         reference = None if name is None else self.element.find_child_reference(name)
@@ -2035,7 +2036,11 @@ class Group(Element):
         if ref['cls'] == Group:
             g = Group(child_name, validation_level=self.validation_level, version=self.version,
                       reference=ref['ref'])
-            g.value = text
+            # the text is written with the encoding characters of this group, not with the ones the new group - which
+            # has no parent yet - would assume
+            module = importlib.import_module("hl7apy.parser")
+            g.children = module.parse_segments(text, self.version, self.encoding_chars, self.validation_level,
+                                               g.reference, True)
             return g
         else:
             # Check that the value starts with the correct name of the segment.
